@@ -111,7 +111,7 @@ func Verif_C11_fault_then_recover() {
 		case c11RstOpenSent:
 			c.remoteClose(2)
 		case c11CeaseOpenSent, c11CeaseOpenConfirm, c11CeaseEstablished:
-			c.send(notificationMessageType, []byte{NOTIF_CODE_CEASE, verifU8("cease-subcode")})
+			c.send(verifMsgNotification, []byte{NOTIF_CODE_CEASE, verifU8("cease-subcode")})
 		}
 		verifQuiesce()
 		if c != nil {
@@ -180,7 +180,7 @@ func Verif_C11_inbound_ends_and_passive() {
 	case 1:
 		ci.remoteClose(2)
 	case 2:
-		ci.send(notificationMessageType, []byte{NOTIF_CODE_CEASE, 0})
+		ci.send(verifMsgNotification, []byte{NOTIF_CODE_CEASE, 0})
 	}
 	verifQuiesce()
 	verifAssert("inbound-connection-closed", ci.closed)
@@ -223,7 +223,7 @@ func Verif_C11_outbound_establishes_after_inbound_session() {
 	case 1:
 		ci.remoteClose(2)
 	case 2:
-		ci.send(notificationMessageType, []byte{NOTIF_CODE_CEASE, 0})
+		ci.send(verifMsgNotification, []byte{NOTIF_CODE_CEASE, 0})
 	}
 	verifQuiesce()
 	verifAssert("inbound-connection-closed", ci.closed)
